@@ -113,6 +113,62 @@ PROPS = {
         level_note='known finding C06-stale-ro-of-descendants; the re-basing machinery is bounded only.',
         explanation='walk order proved; freshness of the stored order decided by bounded checking; one recorded genuine defect',
     ),
+    'C01': dict(
+        title='providedBy/implementedBy report exactly the declared and inherited interfaces',
+        contracts=[], falsifier='C01', modes=['py', 'c'], level='other',
+        level_text='Bounded only so far: random declaration histories (<=9 steps) over class DAGs with multiple inheritance, against the ghost-history specification with two-sided bounds; the recorded stale-redundancy defect is announced as KNOWN-FINDING.',
+        level_note='bounded; two known findings share one region (redundant instance declaration followed by class narrowing)',
+        explanation='bounded run-time contract checking of the real code against an executable specification written from the statement; no obligation discharged yet for this property',
+    ),
+    'C02': dict(
+        title='extends/isOrExtends equal reachability over current bases, after any rebasing',
+        contracts=[], falsifier='C02', modes=['py', 'c'], level='other',
+        level_text='Bounded only so far: random mixed specification graphs with <=4 re-basings, every pair compared with independent reachability.',
+        level_note='bounded; equal-named distinct interfaces are outside the domain (DESIGN 1.3)',
+        explanation='bounded run-time contract checking of the real code against an executable specification written from the statement; no obligation discharged yet for this property',
+    ),
+    'C13': dict(
+        title='Specifications pickle by reference and unpickle to the equivalent live object',
+        contracts=[], falsifier='C13', modes=['py', 'c'], level='other',
+        level_text='Bounded: real pickle round trips of every fixture x all protocols; the pickle protocol itself is an external dependency.',
+        level_note='bounded over a fixed fixture module; pickle is trusted',
+        explanation='bounded run-time contract checking of the real code against an executable specification written from the statement; no obligation discharged yet for this property',
+    ),
+    'C14': dict(
+        title='Calling an interface follows the PEP 246 adaptation order',
+        contracts=[], falsifier='C14', modes=['py', 'c'], level='other',
+        level_text='Bounded but exhaustive over the product of the statement: 9 conform behaviours x provided x hook lists (len<=2/3) x alternate x 4 custom __adapt__ behaviours, result and executed steps, both implementations.',
+        level_note='exhaustive over the stated product with hook lists up to length 2 (quick) / 3 (thorough); not a proof for longer lists',
+        explanation='bounded run-time contract checking of the real code against an executable specification written from the statement; no obligation discharged yet for this property',
+    ),
+    'C15': dict(
+        title='Attribute, tagged-value and invariant resolution all follow the resolution order',
+        contracts=[], falsifier='C15', modes=['py'], level='other',
+        level_text='Bounded only so far: random interface DAGs <=5 with overlapping definers/tags/invariants and re-basing with warm memo, every accessor against "first definer along __iro__".',
+        level_note='bounded',
+        explanation='bounded run-time contract checking of the real code against an executable specification written from the statement; no obligation discharged yet for this property',
+    ),
+    'C16': dict(
+        title='Components listings, lookups and events stay mutually consistent',
+        contracts=[], falsifier='C16', modes=['py'], level='other',
+        level_text='Bounded only so far: random histories (<=8 calls) of the eight methods and re-initialisation with hashable/unhashable/equal components against a list-based reference; two recorded event-clause deviations are announced as KNOWN-FINDING.',
+        level_note='bounded; event clause: two known findings',
+        explanation='bounded run-time contract checking of the real code against an executable specification written from the statement; no obligation discharged yet for this property',
+    ),
+    'C19': dict(
+        title='super() proxies see only the remainder of the MRO',
+        contracts=[], falsifier='C19', modes=['py', 'c'], level='other',
+        level_text='Bounded only so far: random class DAGs <=5 with every (C, ob) along every MRO, before and after declaration changes.',
+        level_note='bounded',
+        explanation='bounded run-time contract checking of the real code against an executable specification written from the statement; no obligation discharged yet for this property',
+    ),
+    'C20': dict(
+        title='Declaration algebra: iteration, membership, + and - obey ordered-set laws',
+        contracts=[], falsifier='C20', modes=['py'], level='other',
+        level_text='Bounded only so far: exhaustive over all ordered interface DAGs <=3/4 and argument trees of depth <=2; the recorded deviation of + from the literal placement rule is announced as KNOWN-FINDING.',
+        level_note='bounded exhaustive small scope; one known finding',
+        explanation='bounded run-time contract checking of the real code against an executable specification written from the statement; no obligation discharged yet for this property',
+    ),
 }
 
 # properties not claimed (kept current; see DESIGN.md section 6)
